@@ -26,6 +26,7 @@ var props = map[string]func(*check.Ctx) int{
 	"C15": check.C15,
 	"C16": check.C16,
 	"C18": check.C18,
+	"C19": check.C19,
 	"C20": check.C20,
 }
 
